@@ -69,10 +69,46 @@ pub fn run<C: SimCfg>(plan: &Plan, check_distance: usize, frames: u32, expect_re
     for tick in 0..frames {
         t = tick as u64 * 1000;
         let u = sess.current_frame();
-        for p in 0..np {
+        // documented ways of submitting: in any order, several times per player (the last one
+        // counts), and again after a call that failed because an input was still missing
+        let hh = |k: u64| crate::rng::h(plan.seed, crate::rng::dom("synctest.submit"), &[0x5713, tick as u64, k]);
+        let mut order: Vec<usize> = (0..np).collect();
+        if cfg.shuffle_submissions {
+            order.rotate_left(hh(0) as usize % np);
+            if hh(1) & 1 == 1 {
+                order.reverse();
+            }
+            if hh(2) % 7 == 0 && nondet_frame.is_none() {
+                // stale values for all but one player, then a call that must fail and change nothing
+                for &p in &order[..np - 1] {
+                    let _ = sess.add_local_input(p, C::enc(0xBAD0_0000 | p as u32));
+                }
+                *probes.extra.entry("synctest_calls_with_missing_input").or_insert(0) += 1;
+                match guarded(|| sess.advance_frame()) {
+                    Ok(Err(GgrsError::InvalidRequest { .. })) => {}
+                    Ok(other) => {
+                        viol.push(Violation { class: "c16.wrong_error".into(), text: format!("SyncTestSession::advance_frame with the input of player {} missing returned {:?}", order[np - 1], other.map(|r| r.len())), t_us: t, node: 0, frame: u });
+                        break;
+                    }
+                    Err(p) => {
+                        viol.push(Violation { class: panic_class(&p), text: format!("SyncTestSession::advance_frame() with an input missing panicked at {}: {}", short_loc(&p.1), p.0), t_us: t, node: 0, frame: game.g });
+                        break;
+                    }
+                }
+                if sess.current_frame() != u {
+                    viol.push(Violation { class: "c16.misuse_changed_behaviour".into(), text: format!("a failed SyncTest advance_frame moved current_frame() from {u} to {}", sess.current_frame()), t_us: t, node: 0, frame: u });
+                    break;
+                }
+            }
+        }
+        for &p in &order {
             let v = input_value(plan, p, u, 0);
             if submitted[p].len() as i32 == u {
                 submitted[p].push(v);
+            }
+            if cfg.shuffle_submissions && hh(10 + p as u64) % 5 == 0 {
+                let _ = sess.add_local_input(p, C::enc(0xDEAD_0000 | p as u32));
+                *probes.extra.entry("throwaway_submissions").or_insert(0) += 1;
             }
             if let Err(e) = sess.add_local_input(p, C::enc(v)) {
                 viol.push(Violation { class: "c16.local_input_rejected".into(), text: format!("SyncTestSession::add_local_input({p}) returned {e:?}"), t_us: t, node: 0, frame: u });
